@@ -21,7 +21,18 @@ blocks; monitors:
   call (only calls whose repetition is invisible in the IR).  The entry monitors keep judging every
   later completed call: a hook that raised must not change what the journal records afterwards.
 * liveness: after dropping the worlds and ``gc.collect()`` no IR object may survive because
-  of the entries (decided causally: it dies once the entries are dropped too).
+  of the entries (decided causally: it dies once the entries are dropped too).  Before the worlds are
+  dropped the client *looks at* the journals (``J_inspect`` markers, while a journal is active and / or after
+  the last exit) through every public accessor of JournalEntry / Journal - ``entry.ref()``, ``entry.obj``,
+  ``entry.details``, every public data attribute, ``entry.display()`` / ``Journal.display()`` with the output
+  captured, the documented filtering comprehension, repr / == / copies of entries - and keeps what it got
+  that is an entry or a string: looking must not make the entries pin the objects.  A liveness violation
+  names the single look that suffices for it (none: the entries pin by themselves).
+* the alphabet also brings IR objects into being the other way: ``ir.from_proto`` / ``serde.deserialize_*`` /
+  ``ir.load`` of generated messages of every kind (vfpy.gen_proto), serialise-and-deserialise of objects
+  of the world, ``ir.save`` (inline / external data) + ``ir.load``, every tensor class (TensorProtoTensor,
+  ExternalTensor with and without its file, LazyTensor, PackedTensor, StringTensor, TorchTensor, a user
+  subclass) through every public way to one; what is deserialised joins the pools and is edited on.
 """
 
 from __future__ import annotations
@@ -33,15 +44,20 @@ import onnx_ir  # noqa: F401
 
 from vfpy import invariants, shrink, snapshot
 from vfpy import c20_mon as mon
+from vfpy import c20_ops
 from vfpy.c20_ops import MARKERS, Gen20, World20, insert_markers
 
 ID = "C20"
 LEVEL = "exploration"
-RULE = ("a case is one generated edit history (15-80 calls; C01 alphabet with hostile argument classes + tensor, attribute, "
-        "model, function construction, Graph.clone, keyword/generator call forms) with journal markers interleaved (depth 1-3, "
+RULE = ("a case is one generated edit history (15-80 calls; C01 alphabet with hostile argument classes + tensor (every tensor "
+        "class), attribute, model, function construction, deserialisation of generated protos of every kind through from_proto / "
+        "serde.deserialize_* / ir.load / TensorProtoTensor, serialise+deserialise and save+load of world objects (results join the "
+        "pools), Graph.clone, keyword/generator call forms; 3 of 10 cases with tensors that can reject a rename) with journal markers interleaved (depth 1-3, "
         "re-entered Journal objects, exits: normal / harness exception / re-thrown IR exception, crossing up to 3 journals; "
         "6 of 7 cases also add hooks to the journals: observing, calling the IR themselves, or raising once from inside a "
-        "setter / resize / replace_all_uses_with call, which the caller handles and repeats), "
+        "setter / resize / replace_all_uses_with call, which the caller handles and repeats; 6 of 7 cases look at the journals "
+        "through the public accessors of Journal / JournalEntry while the recorded objects are alive, inside a journal and / or "
+        "after the last exit), "
         "executed on a fresh world outside and on another inside journals; non-trivial = the journaled run left >= 1 journal "
         "in which >= 5 instrumented calls completed and compared >= 10 steps; distinct = hash of the marker structure and the "
         "multiset of call kinds. half of the cases construct nodes with Node(..., graph=g) (a constructor that hands the "
@@ -61,6 +77,14 @@ ASSUMPTIONS = [
     "hooks are notified is not part of the statement (report_only_hook_*)",
     "re-entering one Journal object while it is active is not 'properly nested journals' (not exercised)",
     "snapshot covers every public data attribute of Value/Node/Graph/Function/Model (audited against dir() at start-up)",
+    "what a client keeps from looking at a journal is entries (also copies of entries) and strings, never the object an "
+    "accessor returned; an exception out of display()/repr() of an entry is not judged (report_only_inspector_raised:*); "
+    "something a Journal object holds besides its entries is not 'the entries' (report_only_journal_object_itself_keeps_objects_alive)",
+    "an operation that the client saw raise from the journaling layer itself (the repr() taken for the entry raised) is not a "
+    "completed operation although the original constructor returned: its missing entry is not judged, the exception is "
+    "(differential monitor)",
+    "generated protos (vfpy.gen_proto) and the files written for ir.load are functions of the operation descriptor; every world "
+    "writes into a directory of its own whose path is replaced in messages before comparing",
 ]
 
 GC_EVERY = 1
@@ -92,12 +116,26 @@ class Shard:
         self.shrunk: dict = {}
 
 
+def _without_devcfg_addresses(s: dict) -> dict:
+    """The shared snapshot names the model configuration of a node's device configuration by ``id()`` (nodes
+    of deserialised models have them); across two worlds only *which nodes share one* is comparable: the
+    addresses are replaced by the rank of their first appearance."""
+    rank: dict = {}
+    for d in s.values():
+        dc = d.get("devcfg") if isinstance(d, dict) else None
+        if dc:
+            d["devcfg"] = tuple(
+                ((rank.setdefault(t[0], len(rank)),) + t[1:]) if isinstance(t, tuple) and t and isinstance(t[0], int)
+                else (mon.norm_text(t) if isinstance(t, str) else t) for t in dc)
+    return s
+
+
 def snap(w):
     """Cross-world comparable state.  A world that cannot be read any more (possible only after the
     runs already diverged, e.g. a half-constructed node left behind by a constructor that raised
     only inside the journal) is represented by the error."""
     try:
-        return (snapshot.snapshot(w, identities=False), w.extra_state(),
+        return (_without_devcfg_addresses(snapshot.snapshot(w, identities=False)), w.extra_state(),
                 tuple(sorted({c for c, _ in invariants.check_world(w)})))
     except Exception as e:  # noqa: BLE001
         return ({}, {"unreadable": f"{type(e).__name__}: {e}"}, ())
@@ -111,6 +149,14 @@ def op_kind(op) -> str:
         k += "(graph=)"
     if k.startswith(("io_", "kw_io_")) and len(op) > 2 and isinstance(op[2], str):
         k += f"({op[2]})"
+    if k == "tensor":
+        k += f"({op[1]})"
+    if k == "deser":
+        k += f"({op[1]} via {op[4]})"
+    if k == "ser_rt":
+        k += f"({op[1]})"
+    if k == "save_load":
+        k += "(external_data)" if op[2] else "(inline)"
     return k
 
 
@@ -181,6 +227,11 @@ def describe_divergence(items, div):
     kind = op_kind(items[i]) if i < len(items) else "?"
     if what == "result":
         if x[0] != "exc" and y[0] == "exc":
+            if len(y) > 5 and y[5]:
+                # the mechanism is not the operation but the text the journal builds for its entry
+                return (f"diff:raised-only-inside-journal|repr() taken for the journal entry|{y[1]}@{y[3]}",
+                        f"step {i} {items[i]}: outside a journal -> {x!r}; inside -> raised {y[1]}: {y[2][:300]} (at {y[3]}, "
+                        "while the journaling wrapper was taking the repr() of an object for the entry's details)")
             return (f"diff:raised-only-inside-journal|{kind}|{y[1]}@{y[3]}",
                     f"step {i} {items[i]}: outside a journal -> {x!r}; inside -> raised {y[1]}: {y[2][:300]} (at {y[3]})")
         if x[0] == "exc" and y[0] != "exc":
@@ -253,7 +304,32 @@ def liveness_refs(w, w_plain):
     return refs, control
 
 
-def judge(S, items, gc_check=True, confirm=True):
+LIVENESS = "entries-keep-objects-alive"
+
+
+def strip_after(sig: str) -> str:
+    """A liveness signature without its 'after <inspector>' part (which only a localising judgement fills in)."""
+    return "|".join(p for p in sig.split("|") if not p.startswith("after ")) if sig.startswith(LIVENESS) else sig
+
+
+def _has_liveness(S, items) -> bool:
+    v, _ = judge(S, items, gc_check=True, confirm=False, localise=False)
+    return any(s.startswith(LIVENESS) for s, _ in v)
+
+
+def localise_inspection(S, items) -> str:
+    """Which look at the journal makes the entries pin the objects: '' = none is needed, else 'after <inspector>'
+    for the first single inspector (in the fixed order of the table) that suffices."""
+    used = {n for it in items if it[0] == "J_inspect" for n in it[1]}
+    if not used or _has_liveness(S, [it for it in items if it[0] != "J_inspect"]):
+        return ""
+    for name in mon.INSPECTORS:
+        if name in used and _has_liveness(S, [["J_inspect", [name]] if it[0] == "J_inspect" else it for it in items]):
+            return "after " + name
+    return "after several looks at the entries"
+
+
+def judge(S, items, gc_check=True, confirm=True, localise=True):
     """Returns (violations, info): violations = list of (signature, text)."""
     cps = default_checkpoints(items)
     viol: list = []
@@ -298,12 +374,16 @@ def judge(S, items, gc_check=True, confirm=True):
     if left:
         info["classes_force_restored"] = mon.force_restore(S.baseline)
     # ---- liveness ----------------------------------------------------------------------------
-    entries_kept = [list(j.entries) for j in jobs.journals]
+    journals_kept = list(jobs.journals)
+    entries_kept = [list(j.entries) for j in journals_kept]
     info["entries_total"] = sum(len(e) for e in entries_kept)
+    client_kept = jobs.kept  # what the client kept from looking at the journals: entries (and copies of entries), strings
     still_open = mon.journaling.get_current_journal() is not None
     jobs.journals = []
+    jobs.kept = []
     jobs.problems = []
     plain = None
+    pinned = None
     if gc_check and not still_open:
         refs, control = liveness_refs(w2, w1)
         w1 = w2 = None
@@ -313,21 +393,41 @@ def judge(S, items, gc_check=True, confirm=True):
         alive = [(n, r, i) for n, r, i in refs if r() is not None]
         info["gc_objects_checked"] = len(refs)
         if alive:
+            # the statement speaks of the entries: something else a Journal object holds is counted, not judged
+            journals_kept = None
+            gc.collect()
+            if not any(r() is not None for _, r, _ in alive):
+                info["report_only_journal_object_itself_keeps_objects_alive"] = 1
+                alive = []
+        if alive:
             alive_ids = {id(r()) for _, r, _ in alive}
             holders = set()
-            for es in entries_kept:
+            for es in entries_kept + [k for k in client_kept if k and hasattr(k[0], "operation")]:
                 for e in es[:200]:
+                    # what the entry object holds: its fields and whatever else sits in its instance dictionary
+                    # (read from there: a property is not evaluated by the localisation)
+                    own = dict(getattr(e, "__dict__", {}))
                     for f in ENTRY_FIELDS:
-                        if f not in holders and _reaches(getattr(e, f, None), alive_ids):
+                        own.setdefault(f, getattr(e, f, None))
+                    for f, val in own.items():
+                        if f not in holders and _reaches(val, alive_ids):
                             holders.add(f)
             names = sorted({n for n, _, _ in alive})
-            entries_kept = es = e = val = None  # the loop variables would keep the last entry alive
+            n_alive = len(alive)
+            entries_kept = client_kept = es = e = val = own = None  # the loop variables would keep the last entry alive
             gc.collect()
             if any(r() is not None for _, r, _ in alive):
                 raise RuntimeError(f"{names} objects survive although worlds and journal entries were dropped: harness leak")
-            viol.append((f"entries-keep-objects-alive|via {'+'.join(sorted(holders)) or 'unlocated field'}",
-                         f"{len(alive)} IR objects ({', '.join(names)}) survived gc.collect() after the world was dropped and died "
-                         f"only when the journal entries were dropped too; held through entry field(s): {sorted(holders) or 'not located'}"))
+            pinned = (n_alive, names, sorted(holders))
+    journals_kept = entries_kept = client_kept = refs = control = alive = None
+    if pinned is not None:
+        n_alive, names, holders = pinned
+        after = localise_inspection(S, items) if localise else ""
+        viol.append((f"{LIVENESS}|{after + '|' if after else ''}via {'+'.join(holders) or 'unlocated field'}",
+                     f"{n_alive} IR objects ({', '.join(names)}) survived gc.collect() after the world was dropped and died "
+                     f"only when the journal entries were dropped too; held through entry attribute(s): {holders or 'not located'}"
+                     + (f"; needed for it: the client looked at the entries ({after[6:]}) while the objects were alive"
+                        if after else "")))
     # de-duplicate by signature, keep order
     seen, out = set(), []
     for sig, text in viol:
@@ -344,7 +444,7 @@ def report(ctx, S, items, sig, text):
     if sig in S.shrunk:
         ctx.violation(sig, S.shrunk[sig][0], S.shrunk[sig][1])
         return
-    want_gc = sig.startswith("entries-keep")
+    want_gc = sig.startswith(LIVENESS)
     if len(S.shrunk) >= MAX_SHRINKS:  # a flood (a mutant): report, do not spend the budget on shrinking
         msg = text + "\n  marked history (not shrunk):\n    " + "\n    ".join(str(it) for it in items[:80])
         S.shrunk[sig] = (msg, {"items": items})
@@ -354,17 +454,18 @@ def report(ctx, S, items, sig, text):
     def fails(sub):
         if not any(it[0] not in MARKERS for it in sub):
             return False
-        v, _ = judge(S, sub, gc_check=want_gc, confirm=False)
-        return any(s == sig for s, _ in v)
+        v, _ = judge(S, sub, gc_check=want_gc, confirm=False, localise=False)
+        return any(strip_after(s) == strip_after(sig) for s, _ in v)
 
     small = shrink.ddmin(items, fails, max_tests=90 if ctx.tier == "quick" else 250)
     v, _ = judge(S, small, gc_check=want_gc, confirm=True)
-    t = next((t for s, t in v if s == sig), None)
-    if t is None:  # the shrunk witness did not survive the confirmation run: keep the original
-        small, t = items, text
-    msg = t + "\n  minimal marked history:\n    " + "\n    ".join(str(it) for it in small[:60])
-    S.shrunk[sig] = (msg, {"items": small})
-    ctx.violation(sig, msg, {"items": small})
+    # the signature is derived from the minimal witness (for liveness: the look at the entries that it still contains)
+    hit = next(((s, t) for s, t in v if s == sig), None) or next(((s, t) for s, t in v if strip_after(s) == strip_after(sig)), None)
+    if hit is None:  # the shrunk witness did not survive the confirmation run: keep the original
+        small, hit = items, (sig, text)
+    msg = hit[1] + "\n  minimal marked history:\n    " + "\n    ".join(str(it) for it in small[:60])
+    S.shrunk[sig] = S.shrunk[hit[0]] = (msg, {"items": small})
+    ctx.violation(hit[0], msg, {"items": small})
 
 
 def run_case(ctx, S, case):
@@ -373,8 +474,9 @@ def run_case(ctx, S, case):
     length = rng.choice([15, 30, 50, 80])
     p_ext = rng.choice([0.15, 0.3, 0.45])
     node_in_graph = rng.random() < 0.5
+    collaborators = rng.random() < 0.3
     scratch = World20()
-    gen = Gen20(rng, scratch, hostile, p_ext, node_in_graph)
+    gen = Gen20(rng, scratch, hostile, p_ext, node_in_graph, collaborators)
     ops = []
     for _ in range(length):
         op = gen.op()
@@ -387,6 +489,13 @@ def run_case(ctx, S, case):
         if isinstance(v, int):
             ctx.count(k, v)
     ctx.count("cases_with_node_in_graph" if node_in_graph else "cases_without_node_in_graph")
+    if collaborators:
+        ctx.count("cases_with_collaborator_tensors")
+    for it in items:
+        if it[0] in ("deser", "ser_rt", "save_load", "x_read", "tensor"):
+            ctx.count("ops:" + op_kind(it))
+            if it[0] != "tensor":
+                ctx.count("deser_ops" if it[0] != "x_read" else "tensor_reads")
     shape = [tuple(it) for it in items if it[0] in MARKERS]
     kinds = sorted({op_kind(it) for it in items if it[0] not in MARKERS})
     nontrivial = info.get("journals_with_5+_completed_calls", 0) >= 1 and info.get("steps_compared", 0) >= 10
@@ -428,6 +537,17 @@ def plan(tier: str) -> dict:
     }
     for key in mon.TABLE:
         floors["calls:" + key] = 15
+    # looking at the journals before the IR is dropped
+    floors.update({"inspections": 600, "inspections_inside_a_journal": 250, "inspections_after_the_last_exit": 250,
+                   "entries_inspected_while_object_alive": 20000})
+    for name in mon.INSPECTORS:
+        floors["inspect:" + name] = 400
+    # objects of every tensor class came into being inside a journal (entries seen), deserialisation happened
+    floors.update({"init_entries:TensorProtoTensor": 500, "init_entries:ExternalTensor": 150, "init_entries:StringTensor": 300,
+                   "init_entries:LazyTensor": 40, "init_entries:PackedTensor": 20, "init_entries:Tensor": 400,
+                   "init_entries:PickyTensor": 30, "ops:deser(ModelProto via load)": 40, "deser_ops": 500})
+    if c20_ops.torch is not None:
+        floors["init_entries:TorchTensor"] = 20
     if not quick:
         floors = {k: v * 10 for k, v in floors.items()}
     return {
@@ -462,6 +582,12 @@ def run(ctx) -> None:
     reached = {k[6:] for k in ctx.counters if k.startswith("calls:")}
     for key in sorted(set(mon.TABLE) - reached):
         ctx.note(f"instrumented operation never reached inside a journal by at least one shard: {key}")
+    def subclasses(c):
+        return {s for d in c.__subclasses__() for s in ({d} | subclasses(d))}
+    built = {k[len("init_entries:"):] for k in ctx.counters if k.startswith("init_entries:")}
+    for c in sorted(subclasses(mon._core.TensorBase), key=lambda c: c.__name__):
+        if c.__name__ not in built:
+            ctx.note(f"tensor class never constructed inside a journal by at least one shard: {c.__name__}")
     if S.volatile:
         ctx.note(f"class attributes that change without any journal (ignored by the census): {sorted(S.volatile)}")
 
